@@ -93,7 +93,7 @@ def summarize_traces(traces):
 def run_api(prop, tier, seed, profiles, builds, own_guards, crash_decisive=False, nruns=(6, 40), ops=(2500, 6000),
             maxlive=(150, 600), gen=(24, 200), gen_depth=30, mc_cfg=("MiApiMC.cfg", "MiApiMC_thorough.cfg"),
             driver="drv_api", driver_src="drv_api.c", extra_args=(), envs=(None,), shim=False, assumptions=(), level_extra=None,
-            group=3):
+            group=3, finish=True):
     q = 0 if tier == "quick" else 1
     V = vlib.Verdict(prop, tier, seed)
     od = vlib.outdir(prop)
@@ -215,6 +215,8 @@ def run_api(prop, tier, seed, profiles, builds, own_guards, crash_decisive=False
     }
     if level_extra:
         cov.update(level_extra)
+    if not finish:
+        return V, cov
     return V.finish("model_checking", cov, assumptions=list(assumptions) + [
         "TLC 1.8.0 and the CommunityModules Json/IOUtils are trusted",
         "harness measurements (addresses, usable sizes, decoded patterns, zero runs) are trusted; blocks > 256 KiB are written/compared sparsely (first and last 4 KiB, 64 bytes every 4 KiB)",
